@@ -396,7 +396,11 @@ struct Task {
     std::vector<Op> prog;         // library tasks
     int64_t total = 0;            // raw tasks: bytes to move
     int maxchunk = 8;
-    int64_t stall = 0;            // raw tasks: one long pause (us) somewhere in the middle (provokes the partner's timeout)
+    int64_t stall = 0;            // one long pause somewhere in the middle that provokes the partner's timeout: a raw task waits
+                                  // until the partner's call has returned (at most STALL_CAP), a library task pauses `stall` us
+    Task* partner = nullptr;      // the task at the other end of the flow
+    std::atomic<int> resp_seq{0}; // number of calls that have returned
+    std::atomic<bool> prog_done{false};   // the program is over (what follows is the final shutdown / drain)
     uint64_t seed = 0;
 };
 
@@ -444,6 +448,16 @@ static void shut_wr(Endpoint* ep) {
     sk.unlock();
 }
 
+static const int64_t STALL_CAP = 2500 * 1000;
+// the staller does nothing until the partner's current / next call has returned (its timeout must end it), or the partner is done
+static void stall_for_partner(Task* tk) {
+    Task* p = tk->partner;
+    tk->w.where = "stall";
+    if (!p || !p->lib) { photon::thread_usleep(tk->stall); return; }
+    int seq = p->resp_seq.load();
+    for (int64_t waited = 0; waited < STALL_CAP && !p->prog_done.load() && p->resp_seq.load() == seq; waited += 200) photon::thread_usleep(200);
+}
+
 static void raw_task(Task* tk) {
     vt::Rng r(tk->seed);
     Endpoint* ep = tk->ep;
@@ -452,7 +466,7 @@ static void raw_task(Task* tk) {
     int64_t stall_at = tk->stall ? (int64_t)r.below(tk->total + 1) : -1;
     int idle = 0;
     while (done < tk->total && idle < 20000) {
-        if (!stalled && tk->stall && done >= stall_at) { stalled = true; tk->w.where = "stall"; photon::thread_usleep(tk->stall); }
+        if (!stalled && tk->stall && done >= stall_at) { stalled = true; stall_for_partner(tk); }
         pause_us(pick_pause(r));
         int want = 1 + (int)r.below(tk->maxchunk);
         if (want > tk->total - done) want = (int)(tk->total - done);
@@ -560,11 +574,13 @@ static void lib_task(Task* tk) {
             e.i("t", cx.t).s("op", op.d.name).i("f", f).i("r", ret).i("en", en).i("m", m).i("ck", ck).i("clean", clean).i("dt", (int64_t)(t1 - t0));
             if (cx.rep) { e.i("rep", cx.rep); cx.rep = 0; }
         }
+        tk->resp_seq++;
         if (ret < 0 && en != ETIMEDOUT && en != ECANCELED) break;
         if (!tk->role && op.d.loop && ret >= 0 && ret < n) break;        // end of stream
         if (!tk->role && !op.d.loop && ret == 0 && n > 0) break;
     }
     tk->w.where = "finish";
+    tk->prog_done = true;
     if (tk->role == 1) shut_wr(ep); else drain(ep, tk);
 }
 
@@ -628,6 +644,7 @@ static int run_exec(int ex, vt::Rng& r) {
             tk->w.id = tk->cx.t = ++tid;
             tk->total = tot;
             tk->maxchunk = g_big ? (r.coin() ? 3000 : 20000) : (r.coin() ? 3 : 8);
+            if (role == 0) { Task* wtk = tasks[tasks.size() - 2].get(); tk->partner = wtk; wtk->partner = tk; }
             if (other->lib && other->to > 0 && other->to < 1000000 && r.below(3) < 2) tk->stall = other->to + 1500 + r.below(3000);
             if (tk->lib) {
                 int64_t left = tot; int guard = 0;
